@@ -1,12 +1,13 @@
 """C06 -- detection flags exactly the violating records and agrees with verification."""
 from runner.core import Context, finish
 
-MODULES = ['contracts.constraints']
+MODULES = ['contracts.constraints', 'contracts.pddetect']
 PID = 'C06'
 
 
 def targets():
     import contracts.constraints as cc
+    import contracts.pddetect
     from pyvc.contracts import REGISTRY
     return [i for i, c in REGISTRY.items() if not c.assumed and 'C06' in c.props]
 
@@ -19,8 +20,14 @@ def run(tier, seed):
     ctx.run_deductive(MODULES, targets())
     from props import common_constraints as cm
     cm.fill_trust(ctx)
+    ctx.trusted.append('A-pandas (detection): a column stub whose element-wise operations (comparison with a value, '
+                       '.str.len(), .isin(), ~, |, pd.notnull, DataFrame.duplicated) return mask descriptions; '
+                       'detection_field, pandas_types_compatible and pandas_coarse_type are assumed at that level')
     ctx.notes.append('deductive part: verify_* postconditions do not mention `detect` (verdicts identical with and '
-                     'without detection) and the hook-iff / hook-args clauses; record-level flag semantics, counts, '
-                     'output frame/file and input-frame frame conditions are decided by the bounded layer only')
+                     'without detection) and the hook-iff / hook-args clauses; each detect_*_constraint method of the '
+                     'pandas detector writes exactly one flag column, under the name of its constraint kind, holding the '
+                     'record-level mask the property describes (every record for a type failure, null records for '
+                     'max_nulls, duplicated-group members for no_duplicates, nulls otherwise unflagged); counts, output '
+                     'frame/file and input-frame frame conditions are decided by the bounded layer only')
     cm.bounded_constraints(ctx, props=('C06',))
     return finish(ctx, 'other', replayers=cm.REPLAYERS)
